@@ -344,3 +344,12 @@ package definition
 //@ func GetPillarEpochHistoryList(context, epoch)
 //@   trusted
 //@   modifies nothing
+
+// ---- accelerator entries: only the frame (ASSUMED): saving or deleting an entry writes the store and nothing else - in
+// particular not the loaded project / phase objects the receive paths keep using afterwards (index sweep, C09)
+//@ func Project.Save(project, context)
+//@   trusted
+//@   modifies context.has, context.val
+//@ func Phase.Save(phase, context)
+//@   trusted
+//@   modifies context.has, context.val
